@@ -864,11 +864,15 @@ class FileSet:
         gc.collect()
 
         # We do not want to have any None as data
-        files, data = zip(*[
+        results = [
             [info, content]
             for info, content in results
             if content is not None
-        ])
+        ]
+        if not results:
+            return ([], []) if return_info else []
+
+        files, data = zip(*results)
 
         if return_info:
             return list(files), list(data)
